@@ -228,7 +228,10 @@ def get_strategy_base():
                 if x < pr['wrong_side_p']:
                     sign = -sign
                     self._c.count('wrong_side_row')
-                elif x < pr['wrong_side_p'] + pr['near_band_p']:
+                elif x < pr['wrong_side_p'] + pr['near_band_p'] and not (
+                        self.exchange_type == 'spot' and kind == 'sl' and pr['tp_rows'] > 0):
+                    # (in spot a market-routed stop next to resting limit targets is an oversell jesse
+                    # rejects by the very rule C04 states; not a case worth ending the run for)
                     # a row at / next to the 0.015 % market band
                     band = ref_price * 0.00015
                     choice = int(self._uu(hook, f'{kind}_band{i}', 0.0) * 4)
@@ -370,7 +373,7 @@ def get_strategy_base():
             self._enter_hook('upd')
             pr = self._prog
             u = self._uu('upd', 'act', 1.0)
-            if u < pr['p_liquidate']:
+            if u < pr['p_liquidate'] and not (self.exchange_type == 'spot' and self._decl['tp'] is not None):
                 self._c.count('liquidate_called')
                 before = (self.stop_loss, self.take_profit)
                 self.liquidate()
@@ -539,6 +542,18 @@ def gen_program(st, exchange_type, profile=None):
         'raise_at': None,
     }
     prog.update(profile)
+    if exchange_type == 'spot':
+        # a wrong-side row changes the order kind (a stop-loss above the price is a LIMIT sell), which in spot
+        # adds to the other declaration's resting total and is rejected by the rule C04 states
+        prog['wrong_side_p'] = 0.0
+    if prog['p_broker'] > 0:
+        # direct broker calls can flip a futures position.  jesse reports a flip as a fresh "open" and
+        # re-submits the previous direction's declared exits as plain market orders, which flips again,
+        # for ever (a user-program hazard, no property covers it): flips are explored without declared exits.
+        prog['sl_rows'] = 0
+        prog['tp_rows'] = 0
+        prog['p_liquidate'] = 0.0
+        prog['exit_in_go'] = False
     # quantities with 0 decimals need a price scale that affords at least one unit; sizing falls back
     # to "no entry" otherwise, which is fine but wastes the run: keep decimals >= 3 for expensive symbols.
     return prog
